@@ -66,17 +66,28 @@ static void c7_build_ref(int hs){
 
 /* data oracle: do the r frames just read (from link bs, starting at pcm position pos) equal the reference? returns 1 ok, 0 mismatch, -1 no reference */
 static long c7_mis_n,c7_mis_first,c7_mis_last;
+static int c7_check1(c7_reflink *L,float **pcm,long r,ogg_int64_t rel){
+  long j; int c;
+  c7_mis_n=0; c7_mis_first=c7_mis_last=-1;
+  if(rel<0||rel+r>L->frames)return 0;
+  for(j=0;j<r;j++){ int bad=0; for(c=0;c<L->ch;c++) if(memcmp(&L->data[(rel+j)*L->ch+c],&pcm[c][j],4))bad=1;
+    if(bad){ if(c7_mis_first<0)c7_mis_first=j; c7_mis_last=j; c7_mis_n++; } }
+  return c7_mis_n==0;
+}
 static int c7_check(int hs,float **pcm,long r,int bs,ogg_int64_t pos){
-  c7_reflink *L; long j; int c; ogg_int64_t rel;
+  c7_reflink *L; ogg_int64_t rel; int d,nodd=0,i;
   c7_mis_n=0; c7_mis_first=c7_mis_last=-1;
   if(!c7_ref[hs]||bs<0||bs>=c7_refn[hs])return -1;
   L=&c7_ref[hs][bs]; rel=pos-L->start;
   if(rel<0)return 0;
-  if(hs)rel>>=1; /* a half-rate sample stands for two positions: after an odd-length link the linear read labels the next link's samples one higher than a seek does */
-  if(rel+r>L->frames)return 0;
-  for(j=0;j<r;j++){ int bad=0; for(c=0;c<L->ch;c++) if(memcmp(&L->data[(rel+j)*L->ch+c],&pcm[c][j],4))bad=1;
-    if(bad){ if(c7_mis_first<0)c7_mis_first=j; c7_mis_last=j; c7_mis_n++; } }
-  return c7_mis_n==0;
+  if(!hs)return c7_check1(L,pcm,r,rel);
+  /* half rate: a sample stands for two positions, a link of odd length N delivers (N+1)/2 samples and the position advances by two
+     per sample, so a linear read labels the samples of a later link one higher for every odd-length link it has crossed since the
+     last seek (a seek labels them exactly): accept the sample index for any such drift */
+  for(i=0;i<bs;i++) if((c7_ref[hs][i+1<c7_refn[hs]?i+1:i].start-c7_ref[hs][i].start)&1) nodd++;
+  for(d=0;d<=nodd;d++) if(rel-d>=0&&c7_check1(L,pcm,r,(rel-d)>>1)) return 1;
+  c7_check1(L,pcm,r,rel>>1);
+  return 0;
 }
 
 /* decode one link's bytes through the packet-level API alone (libogg + vorbis_synthesis*), as examples/decoder_example.c does,
@@ -189,7 +200,18 @@ static void c7_table(void){
       off+=r;
     }
   }
-  printf("tableend pages=%d\n",npages);
+  printf("tableend pages=%d stalls=",npages);
+  /* where libogg's page hunt comes to rest at end of file: an 'O' with fewer than 27 bytes after it, or a capture pattern whose header or body
+     would run past the end (ogg_sync_pageseek returns 0, "need more data", and there is none) */
+  { long q,nq=0; const unsigned char *d=(const unsigned char*)c7_phys.p; long n=c7_phys.n;
+    for(q=0;q<n;q++) if(d[q]=='O'){
+      long bytes=n-q; int st=0;
+      if(bytes<27)st=1;
+      else if(!memcmp(d+q,"OggS",4)){ long hb=27+d[q+26],bb=0,k; if(bytes<hb)st=1; else{ for(k=0;k<d[q+26];k++)bb+=d[q+27+k]; if(hb+bb>bytes)st=1; } }
+      if(st){ printf("%s%ld",nq?",":"",q); nq++; }
+    }
+    if(!nq)putchar('-'); }
+  putchar('\n');
   for(i=0;i<nst;i++)if(st[i].used)ogg_stream_clear(&st[i].os);
   ogg_sync_clear(&oy);
 }
@@ -455,8 +477,10 @@ static int c07_main(int argc,char **argv){
         c7_handle *H2=&c7h[atoi(tok[2])%C7_SLOTS]; int rc;
         ogg_int64_t oldpos=ov_pcm_tell(vf); int h1=ov_halfrate_p(vf)>0;
         rc=H2->open?ov_crosslap(vf,&H2->vf):-9999;
-        { int pend=H->lap_valid||(H2->open&&H2->lap_valid); if(H2->open){ H2->lap_valid=0; H2->lap_oldunk=pend; } }
-        H->lap_valid=0; if(rc==0)H->stale=1; /* its lapping audio has been consumed without the position moving: see the C19 notes */
+        /* a refused ov_crosslap (nothing to prime on the new handle, bad state) returns before it touches the old handle's audio: both expectations stay */
+        if(rc==0){ int pend=H->lap_valid||H->stale||(H2->open&&H2->lap_valid); /* an old handle that already gave its lapping audio to an earlier ov_crosslap is ahead of its position */
+          if(H2->open){ H2->lap_valid=0; H2->lap_oldunk=pend; }
+          H->lap_valid=0; H->stale=1; } /* its lapping audio has been consumed without the position moving: see the C19 notes */
         if(rc==0&&H2!=H&&vf->seekable&&H2->vf.seekable&&vf->ready_state>=STREAMSET&&H2->vf.ready_state>=STREAMSET&&h1==(ov_halfrate_p(&H2->vf)>0)){
           int on=vorbis_info_blocksize(vf->vi+vf->current_link,0)>>(1+h1), nn=vorbis_info_blocksize(H2->vf.vi+H2->vf.current_link,0)>>(1+h1);
           H2->lap_valid=1; H2->lap_oldpos=oldpos; H2->lap_oldlink=vf->current_link; H2->lap_newpos=ov_pcm_tell(&H2->vf); H2->lap_n=on<nn?on:nn; H2->lap_ch1=vf->vi[vf->current_link].channels; H2->lap_hs=h1; H2->lap_newlink=H2->vf.current_link; H2->lap_k=vorbis_synthesis_pcmout(&H2->vf.vd,NULL); }
